@@ -1,11 +1,648 @@
-// Package c08: correspondence ops for C08 (stub, not yet built).
 package c08
 
 import (
+	"encoding/json"
+	"fmt"
+	"math/rand/v2"
+	"strconv"
+	"strings"
+	"time"
+
+	"sigs.k8s.io/karpenter/pkg/controllers/disruption"
+
 	"verifharness/internal/core"
 	"verifharness/internal/registry"
 )
 
 func init() { registry.Register("C08", Ops) }
 
-func Ops() []*core.Op { return nil }
+const (
+	sec       = int64(time.Second)
+	minRetry  = 600 * sec // only used to aim the generated clock at the edge of the retry window; the model reads the real constant
+	windowEps = int64(1)
+)
+
+// ---------- running ----------
+
+func implProtocol(raw json.RawMessage) (any, error) {
+	var in In
+	if err := json.Unmarshal(raw, &in); err != nil {
+		return nil, err
+	}
+	if in.RetrySteps != RetrySteps() {
+		return nil, fmt.Errorf("retrySteps %d is not the process' retry.DefaultBackoff.Steps %d", in.RetrySteps, RetrySteps())
+	}
+	for _, c := range in.Cmds {
+		seen := map[int]bool{}
+		for _, i := range c.Cands {
+			if seen[i] {
+				return nil, fmt.Errorf("duplicate candidate in a command")
+			}
+			seen[i] = true
+		}
+	}
+	return run(&in)
+}
+
+// census runs a fault-free history and returns how often every call site was used, cumulatively after every step.
+func census(in *In) ([]map[string]int, error) {
+	e, err := newEnv(in)
+	if err != nil {
+		return nil, err
+	}
+	var out []map[string]int
+	for _, s := range in.Steps {
+		if so := e.step(s); strings.HasPrefix(so.Res, "harness:") {
+			return nil, fmt.Errorf("%s", so.Res)
+		}
+		c := map[string]int{}
+		e.mu.Lock()
+		for k, v := range e.counts {
+			c[k] = v
+		}
+		e.mu.Unlock()
+		out = append(out, c)
+	}
+	return out, nil
+}
+
+// ---------- generators ----------
+
+func pickInt(r *rand.Rand, xs ...int) int { return xs[r.IntN(len(xs))] }
+
+func keyUniverse(in *In) []string {
+	var ks []string
+	for i := 0; i < in.NCands; i++ {
+		for _, p := range []string{"get.node.", "patch.node.", "get.nc.", "status.nc.", "del.nc."} {
+			ks = append(ks, p+strconv.Itoa(i))
+		}
+	}
+	for i := 0; i < maxRepls; i++ {
+		ks = append(ks, "get.pool."+strconv.Itoa(i))
+	}
+	for k, c := range in.Cmds {
+		for i := 0; i < c.Repls; i++ {
+			ks = append(ks, fmt.Sprintf("create.repl.%d.%d", k, i), fmt.Sprintf("get.repl.%d.%d", k, i))
+		}
+	}
+	return ks
+}
+
+func genCmds(r *rand.Rand, ncands int) []CmdIn {
+	n := pickInt(r, 1, 1, 2, 2, 3)
+	cmds := make([]CmdIn, 0, n)
+	for k := 0; k < n; k++ {
+		perm := r.Perm(ncands)
+		m := 1 + r.IntN(ncands)
+		if r.Float64() < 0.5 {
+			m = 1
+		}
+		cmds = append(cmds, CmdIn{Cands: append([]int{}, perm[:m]...), Repls: pickInt(r, 0, 1, 1, 1, 2, 2, 3)})
+	}
+	return cmds
+}
+
+// genProtocol draws a history: actions are started (mostly through the controller's candidate filter), replacements
+// launch / initialize / vanish in any order, the queue and the controller's cleanup run in between, the clock is
+// aimed at the edges of the retry window, the process restarts, and a few API calls fail.
+func genProtocol(r *rand.Rand, t core.Tier) any {
+	in := In{NCands: pickInt(r, 1, 1, 2, 2, 2, 3, 3, 4), MissingPools: []int{}, Faults: []FaultIn{}, RetrySteps: RetrySteps()}
+	in.Cmds = genCmds(r, in.NCands)
+	if r.Float64() < 0.1 {
+		in.MissingPools = append(in.MissingPools, r.IntN(maxRepls))
+	}
+	maxLen := 24
+	if t == core.Thorough {
+		maxLen = 60
+	}
+	n := 4 + r.IntN(maxLen)
+	started := []int{}
+	now, lastStart := int64(0), int64(-1)
+	pEnvGood := 0.3 + 0.6*r.Float64() // how cooperative the replacements are
+	for len(in.Steps) < n {
+		x := r.Float64()
+		anyCmd := func() int {
+			if len(started) > 0 && r.Float64() < 0.85 {
+				return started[r.IntN(len(started))]
+			}
+			return r.IntN(len(in.Cmds))
+		}
+		switch {
+		case x < 0.14 || len(started) == 0 && x < 0.6:
+			k := r.IntN(len(in.Cmds))
+			in.Steps = append(in.Steps, StepIn{Op: "start", Cmd: k, Via: r.Float64() < 0.6})
+			started = append(started, k)
+			lastStart = now
+		case x < 0.42:
+			k := anyCmd()
+			in.Steps = append(in.Steps, StepIn{Op: "reconcile", Cmd: k, On: r.IntN(len(in.Cmds[k].Cands))})
+		case x < 0.66:
+			k := anyCmd()
+			if in.Cmds[k].Repls == 0 {
+				continue
+			}
+			op := "init"
+			switch y := r.Float64(); {
+			case y < pEnvGood:
+				op = "init"
+			case y < pEnvGood+0.15:
+				op = "launch"
+			case y < pEnvGood+0.15+(1-pEnvGood-0.15)*0.6:
+				op = "vanish"
+			default:
+				op = "vanishStale"
+			}
+			in.Steps = append(in.Steps, StepIn{Op: op, Cmd: k, Repl: r.IntN(in.Cmds[k].Repls)})
+		case x < 0.78:
+			var d int64
+			switch y := r.Float64(); {
+			case y < 0.35 && lastStart >= 0:
+				// aim at the edge of the retry window of the most recent action: exactly at it, just before, just after
+				target := lastStart + minRetry + int64(pickInt(r, -1, 0, 0, 1, 1))*windowEps
+				d = target - now
+			case y < 0.55:
+				d = int64(pickInt(r, 1, 30, 299, 300, 301, 599, 600, 601, 3600)) * sec
+			default:
+				d = int64(1+r.IntN(120)) * sec
+			}
+			if d <= 0 {
+				d = sec
+			}
+			now += d
+			in.Steps = append(in.Steps, StepIn{Op: "advance", Ns: d})
+		case x < 0.90:
+			in.Steps = append(in.Steps, StepIn{Op: "cleanup"})
+		case x < 0.95:
+			in.Steps = append(in.Steps, StepIn{Op: "sync"})
+		default:
+			in.Steps = append(in.Steps, StepIn{Op: "restart"})
+		}
+	}
+	// a final quiet period: everything launches or is cleaned up, then the cleanup pass runs
+	if r.Float64() < 0.5 {
+		in.Steps = append(in.Steps, StepIn{Op: "sync"})
+		for k, c := range in.Cmds {
+			for i := 0; i < c.Repls; i++ {
+				in.Steps = append(in.Steps, StepIn{Op: "launch", Cmd: k, Repl: i})
+			}
+		}
+		in.Steps = append(in.Steps, StepIn{Op: "cleanup"})
+	}
+	nf := pickInt(r, 0, 0, 1, 1, 1, 2, 2, 3)
+	ks := keyUniverse(&in)
+	for f := 0; f < nf; f++ {
+		cls := "err"
+		if r.Float64() < 0.3 {
+			cls = "notfound"
+		}
+		in.Faults = append(in.Faults, FaultIn{Key: ks[r.IntN(len(ks))], From: pickInt(r, 0, 0, 0, 1, 1, 2, 3, 5), Count: pickInt(r, 1, 1, 2, 3, 4, 4, 5, 9), Class: cls})
+	}
+	return avoidKnown(in)
+}
+
+// avoidKnown rewrites a drawn history so that it cannot reach the two recorded findings (which are re-established
+// by the dedicated op c08.findings): the rewrite looks at the INPUT only and over-approximates their triggers, so a
+// violation with one of those signatures in c08.protocol / c08.faults is a new violation.
+//
+//	F1 (retry window applied to a pass that deletes): a reconcile step later than minRetry after the start step of an
+//	    action all of whose replacements have had an `init` step  ->  the reconcile step becomes a cleanup step
+//	F2 (latched replacement vanishes): init(k,i) ... reconcile ... vanish(k,i) ... reconcile  ->  the vanish step
+//	    becomes a launch step
+func avoidKnown(in In) In {
+	now := int64(0)
+	type key struct{ k, i int }
+	startAt := map[int]int64{}
+	inited := map[key]bool{}
+	seenByPass := map[key]bool{} // init followed by some reconcile
+	for j := range in.Steps {
+		s := &in.Steps[j]
+		switch s.Op {
+		case "advance":
+			if s.Ns > 0 {
+				now += s.Ns
+			}
+		case "start":
+			if _, ok := startAt[s.Cmd]; !ok {
+				startAt[s.Cmd] = now
+			}
+		case "init":
+			inited[key{s.Cmd, s.Repl}] = true
+		case "vanish", "vanishStale":
+			if seenByPass[key{s.Cmd, s.Repl}] {
+				s.Op = "launch"
+			}
+		case "reconcile":
+			late := false
+			for k, at := range startAt {
+				if now-at <= minRetry {
+					continue
+				}
+				all := true
+				for i := 0; i < in.Cmds[k].Repls; i++ {
+					if !inited[key{k, i}] {
+						all = false
+					}
+				}
+				if all {
+					late = true
+				}
+			}
+			if late {
+				*s = StepIn{Op: "cleanup"}
+				continue
+			}
+			for ki := range inited {
+				seenByPass[ki] = true
+			}
+		}
+	}
+	return in
+}
+
+// ---------- systematic single / double fault enumeration ----------
+
+type script struct {
+	name string
+	in   In
+}
+
+func baseScripts() []script {
+	st := func(k int, via bool) StepIn { return StepIn{Op: "start", Cmd: k, Via: via} }
+	rec := func(k int) StepIn { return StepIn{Op: "reconcile", Cmd: k} }
+	env := func(op string, k, i int) StepIn { return StepIn{Op: op, Cmd: k, Repl: i} }
+	adv := func(ns int64) StepIn { return StepIn{Op: "advance", Ns: ns} }
+	cl := StepIn{Op: "cleanup"}
+	mk := func(name string, ncands int, cmds []CmdIn, steps ...StepIn) script {
+		return script{name, In{NCands: ncands, MissingPools: []int{}, Cmds: cmds, Steps: steps, Faults: []FaultIn{}, RetrySteps: RetrySteps()}}
+	}
+	one := []CmdIn{{Cands: []int{0}, Repls: 1}}
+	return []script{
+		mk("replace-1x1", 1, one, st(0, true), rec(0), env("init", 0, 0), rec(0), cl),
+		mk("replace-2x2", 2, []CmdIn{{Cands: []int{0, 1}, Repls: 2}}, st(0, true), env("init", 0, 1), rec(0), env("init", 0, 0), rec(0), cl),
+		mk("vanish", 1, one, st(0, false), env("vanish", 0, 0), rec(0), cl),
+		mk("vanish-stale-then-timeout", 1, one, st(0, true), env("vanishStale", 0, 0), rec(0), adv(minRetry+1), rec(0), StepIn{Op: "sync"}, cl),
+		mk("stall-timeout", 2, []CmdIn{{Cands: []int{1, 0}, Repls: 1}}, st(0, true), env("launch", 0, 0), rec(0), adv(minRetry), rec(0), adv(1), rec(0), cl),
+		mk("restart-in-flight", 1, one, st(0, true), env("launch", 0, 0), StepIn{Op: "restart"}, cl, rec(0)),
+		mk("delete-only", 2, []CmdIn{{Cands: []int{0, 1}, Repls: 0}}, st(0, true), rec(0), cl),
+		mk("ready-just-inside-window", 1, one, st(0, true), adv(minRetry), env("init", 0, 0), rec(0), cl),
+		mk("two-actions-one-node", 2, []CmdIn{{Cands: []int{0}, Repls: 1}, {Cands: []int{0, 1}, Repls: 1}}, st(0, true), st(1, false), env("init", 0, 0), rec(1), rec(0), cl),
+		mk("second-action-after-failure", 1, []CmdIn{{Cands: []int{0}, Repls: 1}, {Cands: []int{0}, Repls: 1}}, st(0, true), env("vanish", 0, 0), rec(0), st(1, true), env("init", 1, 0), rec(1), cl),
+	}
+}
+
+// singleFaults: every call of the fault-free run as a fault position; firesIn[i] = the step in which fault i fires.
+func singleFaults(s script) (out []FaultIn, firesIn []int) {
+	cs, err := census(&s.in)
+	if err != nil {
+		panic(err)
+	}
+	if len(cs) == 0 {
+		return nil, nil
+	}
+	last := cs[len(cs)-1]
+	for _, key := range keyUniverse(&s.in) {
+		n := last[key]
+		for occ := 0; occ < n; occ++ {
+			step := 0
+			for step < len(cs) && cs[step][key] <= occ {
+				step++
+			}
+			for _, cls := range []string{"err", "notfound"} {
+				for _, cnt := range []int{1, RetrySteps()} {
+					out = append(out, FaultIn{Key: key, From: occ, Count: cnt, Class: cls})
+					firesIn = append(firesIn, step)
+				}
+			}
+		}
+	}
+	return out, firesIn
+}
+
+func withFaults(s script, fs ...FaultIn) In {
+	in := s.in
+	in.Faults = append([]FaultIn{}, fs...)
+	return in
+}
+
+func withRestartAt(s script, p int) In {
+	in := s.in
+	steps := append([]StepIn{}, in.Steps[:p]...)
+	steps = append(steps, StepIn{Op: "restart"}, StepIn{Op: "cleanup"})
+	steps = append(steps, in.Steps[p:]...)
+	// after the restart the replacements launch eventually and the cleanup pass runs once more
+	steps = append(steps, StepIn{Op: "sync"})
+	for k, c := range in.Cmds {
+		for i := 0; i < c.Repls; i++ {
+			steps = append(steps, StepIn{Op: "launch", Cmd: k, Repl: i})
+		}
+	}
+	steps = append(steps, StepIn{Op: "cleanup"})
+	in.Steps = steps
+	return in
+}
+
+// enumFaults: every base script fault-free; with every single fault position (each call of the fault-free run failing
+// once or through the whole retry loop, as a NotFound or as another error); with a restart between any two steps; in
+// the thorough tier every pair of such faults.
+func enumFaults(t core.Tier) []any {
+	var out []any
+	for _, s := range baseScripts() {
+		out = append(out, s.in)
+		fs, firesIn := singleFaults(s)
+		for i, f := range fs {
+			out = append(out, withFaults(s, f))
+			// crash point: the process dies in the step in which the call failed (whatever the step did after the
+			// failing call is lost with the process or is an API state a crash can leave) and restarts
+			if f.Count != 1 {
+				c := withRestartAt(s, firesIn[i]+1)
+				c.Faults = []FaultIn{f}
+				out = append(out, c)
+			}
+		}
+		for p := 0; p <= len(s.in.Steps); p++ {
+			out = append(out, withRestartAt(s, p))
+		}
+		if t == core.Thorough {
+			for a := 0; a < len(fs); a++ {
+				for b := a + 1; b < len(fs); b++ {
+					if fs[a].Key == fs[b].Key && fs[a].From == fs[b].From {
+						continue
+					}
+					// restrict pairs to transient×any to keep the space in bounds
+					if fs[a].Count != 1 && fs[b].Count != 1 {
+						continue
+					}
+					out = append(out, withFaults(s, fs[a], fs[b]))
+				}
+			}
+		}
+	}
+	return out
+}
+
+// ---------- the recorded findings, re-established on every run ----------
+
+func findingScripts() []script {
+	st := func(k int, via bool) StepIn { return StepIn{Op: "start", Cmd: k, Via: via} }
+	rec := func(k int) StepIn { return StepIn{Op: "reconcile", Cmd: k} }
+	env := func(op string, k, i int) StepIn { return StepIn{Op: op, Cmd: k, Repl: i} }
+	adv := func(ns int64) StepIn { return StepIn{Op: "advance", Ns: ns} }
+	cl := StepIn{Op: "cleanup"}
+	mk := func(name string, ncands int, cmds []CmdIn, faults []FaultIn, steps ...StepIn) script {
+		if faults == nil {
+			faults = []FaultIn{}
+		}
+		return script{name, In{NCands: ncands, MissingPools: []int{}, Cmds: cmds, Steps: steps, Faults: faults, RetrySteps: RetrySteps()}}
+	}
+	one := []CmdIn{{Cands: []int{0}, Repls: 1}}
+	delFault := []FaultIn{{Key: "del.nc.1", From: 0, Count: RetrySteps(), Class: "err"}}
+	delFault0 := []FaultIn{{Key: "del.nc.0", From: 0, Count: RetrySteps(), Class: "err"}}
+	return []script{
+		// F1: the retry window is applied to a pass that issues the deletes
+		mk("late-ready", 1, one, nil, st(0, true), adv(minRetry+1), env("init", 0, 0), rec(0), cl),
+		mk("late-delete-only", 2, []CmdIn{{Cands: []int{0, 1}, Repls: 0}}, nil, st(0, true), adv(minRetry+1), rec(0), cl),
+		mk("late-after-partial-delete", 2, []CmdIn{{Cands: []int{0, 1}, Repls: 1}}, delFault, st(0, true), env("init", 0, 0), rec(0), adv(minRetry+1), rec(0), cl),
+		// F2: a replacement whose readiness was latched by an earlier pass vanishes before the deletes are issued
+		mk("latched-vanish", 1, []CmdIn{{Cands: []int{0}, Repls: 2}}, nil, st(0, true), env("init", 0, 0), rec(0), env("vanish", 0, 0), env("init", 0, 1), rec(0), cl),
+		mk("latched-vanish-after-delete-error", 1, one, delFault0, st(0, true), env("init", 0, 0), rec(0), env("vanishStale", 0, 0), rec(0), cl),
+		// neighbours that satisfy the property (the model is compared on these)
+		mk("ready-at-window-edge", 1, one, nil, st(0, true), adv(minRetry), env("init", 0, 0), rec(0), cl),
+		mk("latched-stays", 1, []CmdIn{{Cands: []int{0}, Repls: 2}}, nil, st(0, true), env("init", 0, 0), rec(0), env("init", 0, 1), rec(0), cl),
+	}
+}
+
+func enumFindings(core.Tier) []any {
+	var out []any
+	for _, s := range findingScripts() {
+		out = append(out, s.in)
+	}
+	return out
+}
+
+// genFinding: random variations around the two recorded triggers.
+func genFinding(r *rand.Rand, _ core.Tier) any {
+	in := In{NCands: 1 + r.IntN(3), MissingPools: []int{}, Faults: []FaultIn{}, RetrySteps: RetrySteps()}
+	perm := r.Perm(in.NCands)
+	m := 1 + r.IntN(in.NCands)
+	if r.Float64() < 0.5 {
+		repls := r.IntN(3)
+		in.Cmds = []CmdIn{{Cands: perm[:m], Repls: repls}}
+		in.Steps = append(in.Steps, StepIn{Op: "start", Cmd: 0, Via: r.Float64() < 0.5})
+		order := r.Perm(repls)
+		cut := 0
+		if repls > 0 {
+			cut = r.IntN(repls + 1)
+		}
+		for _, i := range order[:cut] {
+			in.Steps = append(in.Steps, StepIn{Op: "init", Cmd: 0, Repl: i})
+		}
+		if r.Float64() < 0.5 {
+			in.Steps = append(in.Steps, StepIn{Op: "reconcile", Cmd: 0})
+		}
+		in.Steps = append(in.Steps, StepIn{Op: "advance", Ns: minRetry + 1 + int64(r.IntN(3))*sec})
+		for _, i := range order[cut:] {
+			in.Steps = append(in.Steps, StepIn{Op: "init", Cmd: 0, Repl: i})
+		}
+		in.Steps = append(in.Steps, StepIn{Op: "reconcile", Cmd: 0, On: r.IntN(m)}, StepIn{Op: "cleanup"})
+		return in
+	}
+	repls := 2 + r.IntN(2)
+	in.Cmds = []CmdIn{{Cands: perm[:m], Repls: repls}}
+	order := r.Perm(repls)
+	vop := "vanish"
+	if r.Float64() < 0.5 {
+		vop = "vanishStale"
+	}
+	in.Steps = append(in.Steps, StepIn{Op: "start", Cmd: 0, Via: r.Float64() < 0.5},
+		StepIn{Op: "init", Cmd: 0, Repl: order[0]}, StepIn{Op: "reconcile", Cmd: 0}, StepIn{Op: vop, Cmd: 0, Repl: order[0]})
+	for _, i := range order[1:] {
+		in.Steps = append(in.Steps, StepIn{Op: "init", Cmd: 0, Repl: i})
+	}
+	in.Steps = append(in.Steps, StepIn{Op: "reconcile", Cmd: 0, On: r.IntN(m)}, StepIn{Op: "cleanup"})
+	return in
+}
+
+// ---------- evidence helpers ----------
+
+func decode(raw json.RawMessage, impl any) (In, *Out) {
+	var in In
+	_ = json.Unmarshal(raw, &in)
+	var out Out
+	b, _ := json.Marshal(impl)
+	if json.Unmarshal(b, &out) != nil || len(out.Steps) != len(in.Steps) {
+		return in, nil
+	}
+	return in, &out
+}
+
+func nontrivial(raw json.RawMessage, impl any) bool {
+	in, out := decode(raw, impl)
+	if out == nil {
+		return false
+	}
+	for i, s := range in.Steps {
+		if s.Op == "start" && out.Steps[i].Res == "ok" && s.Cmd < len(in.Cmds) && in.Cmds[s.Cmd].Repls >= 1 {
+			return true
+		}
+	}
+	return false
+}
+
+func labels(raw json.RawMessage, impl any) []string {
+	in, out := decode(raw, impl)
+	l := []string{fmt.Sprintf("cands=%d", in.NCands), fmt.Sprintf("cmds=%d", len(in.Cmds)), fmt.Sprintf("faults=%d", len(in.Faults))}
+	if out == nil {
+		return append(l, "no-trace")
+	}
+	seen := map[string]bool{}
+	add := func(s string) {
+		if !seen[s] {
+			seen[s] = true
+			l = append(l, s)
+		}
+	}
+	for _, f := range in.Faults {
+		add("fault:" + strings.Join(strings.Split(f.Key, ".")[:2], ".") + ":" + f.Class)
+	}
+	for i, s := range in.Steps {
+		o := out.Steps[i]
+		add(s.Op + ":" + o.Res)
+		if o.NF > 0 {
+			add("fault-fired-in:" + s.Op)
+		}
+		if len(o.Deletes) > 0 {
+			add("delete-issued")
+		}
+	}
+	return l
+}
+
+func shrinkIn(raw json.RawMessage) []any {
+	var in In
+	if json.Unmarshal(raw, &in) != nil {
+		return nil
+	}
+	var out []any
+	for _, c := range core.ShrinkList(in.Steps) {
+		x := in
+		x.Steps = c
+		out = append(out, x)
+	}
+	for _, c := range core.ShrinkList(in.Faults) {
+		x := in
+		x.Faults = c
+		if x.Faults == nil {
+			x.Faults = []FaultIn{}
+		}
+		out = append(out, x)
+	}
+	if len(in.MissingPools) > 0 {
+		x := in
+		x.MissingPools = []int{}
+		out = append(out, x)
+	}
+	return out
+}
+
+// ---------- leaf op: Queue.GetMaxRetryDuration ----------
+
+type RetryIn struct {
+	Entries int `json:"entries"`
+}
+type RetryOut struct {
+	Ns int64 `json:"ns"`
+}
+
+func genRetry(r *rand.Rand, _ core.Tier) any {
+	switch x := r.Float64(); {
+	case x < 0.3:
+		return RetryIn{Entries: r.IntN(200)}
+	case x < 0.6:
+		return RetryIn{Entries: pickInt(r, 7499, 7500, 7501, 44999, 45000, 45001)}
+	}
+	return RetryIn{Entries: r.IntN(60000)}
+}
+
+func implRetry(raw json.RawMessage) (any, error) {
+	var in RetryIn
+	if err := json.Unmarshal(raw, &in); err != nil {
+		return nil, err
+	}
+	q := disruption.NewQueue(nil, nil, nil, nil, nil)
+	q.Lock()
+	for i := 0; i < in.Entries; i++ {
+		q.ProviderIDToCommand[strconv.Itoa(i)] = &disruption.Command{}
+	}
+	q.Unlock()
+	return RetryOut{Ns: int64(q.GetMaxRetryDuration())}, nil
+}
+
+func Ops() []*core.Op {
+	protoOp := func(name, doc, rule string) *core.Op {
+		return &core.Op{
+			Name: name, Doc: doc, Rule: rule,
+			Impl:       implProtocol,
+			Nontrivial: nontrivial,
+			Labels:     labels,
+			Signature:  func(json.RawMessage, any) string { return "protocol" },
+			Shrink:     shrinkIn,
+		}
+	}
+	faults := protoOp("c08.faults",
+		"disruption.Queue (StartCommand, Reconcile/waitOrTerminate, CompleteCommand) + Controller.Reconcile cleanup + state.Cluster marks on the fake client: ten base scripts, each fault-free, with EVERY call of the fault-free run failing (once / through the whole retry loop; NotFound / other error), and with a process restart between any two steps; thorough: all fault pairs",
+		"systematic enumeration; non-trivial = an action with >= 1 replacement was started; distinct = distinct (script, fault vector, restart point)")
+	faults.Enum = enumFaults
+	faults.ExhaustiveNote = "every single-fault position of every base script x {once, whole retry loop} x {NotFound, other}; restart at every step boundary; restart right after the step of every persistent fault; thorough: + all pairs with one transient fault"
+	protocol := protoOp("c08.protocol",
+		"the same real components driven by random histories: 1-3 actions over 1-4 candidates (shared candidates, via NewCandidate or direct), replacements launching / initializing / vanishing (fresh or stale cluster state) in any order, clock aimed at the retry-window edge (-1 ns, 0, +1 ns), cleanup passes, informer syncs, restarts, 0-3 injected API faults, missing NodePools",
+		"random histories (4..28 steps quick, 4..64 thorough); non-trivial = an action with >= 1 replacement was started")
+	protocol.Gen = genProtocol
+	protocol.N = func(t core.Tier) int {
+		if t == core.Thorough {
+			return 12000
+		}
+		return 1500
+	}
+	findings := protoOp("c08.findings",
+		"the two recorded findings re-established on the real queue: (F1) a pass later than the retry window whose replacements are all ready issues the candidate deletes and is then reported failed and rolled back; (F2) a replacement whose readiness was latched by an earlier pass vanishes, the deletes are issued anyway; plus neighbouring histories that satisfy the property",
+		"7 witness / neighbour scripts + 8 random variations around the two triggers (kept below the engine's failure cap so that nothing is masked)")
+	findings.Enum = enumFindings
+	findings.Gen = genFinding
+	findings.N = func(core.Tier) int { return 8 }
+	findings.Shrink = nil
+	return []*core.Op{
+		faults,
+		protocol,
+		findings,
+		{
+			Name: "c08.retry",
+			Doc:  "disruption.Queue.GetMaxRetryDuration for a queue with n entries (clamp(80ms*n, 10min, 1h)) vs the model's retryDuration",
+			N: func(t core.Tier) int {
+				if t == core.Thorough {
+					return 3000
+				}
+				return 300
+			},
+			Gen:  genRetry,
+			Impl: implRetry,
+			Rule: "queue sizes 0..60000 with the clamp edges (7500, 45000) +-1; non-trivial = the scaled value is not clamped to the minimum",
+			Nontrivial: func(raw json.RawMessage, _ any) bool {
+				var in RetryIn
+				_ = json.Unmarshal(raw, &in)
+				return in.Entries > 7500
+			},
+			Labels: func(raw json.RawMessage, _ any) []string {
+				var in RetryIn
+				_ = json.Unmarshal(raw, &in)
+				switch {
+				case in.Entries <= 7500:
+					return []string{"min"}
+				case in.Entries >= 45000:
+					return []string{"max"}
+				}
+				return []string{"scaled"}
+			},
+			Signature: func(json.RawMessage, any) string { return "retry" },
+		},
+	}
+}
